@@ -9,6 +9,7 @@ import (
 	"net/http/httptest"
 	"strconv"
 	"strings"
+	"sync"
 	"testing"
 
 	"github.com/vulcand/oxy/v2/buffer"
@@ -360,9 +361,12 @@ func TestC07_RealServer(t *testing.T) {
 		c := genCase(t)
 		calls := 0
 		b := c.buffer(t, &calls)
-		srv := httptest.NewServer(b)
-		defer srv.Close()
-		req, _ := http.NewRequest(c.method, srv.URL+"/x", nil)
+		srv, err := frontServer()
+		if err != nil {
+			t.Fatalf("%v", err)
+		}
+		srv.Set(b)
+		req, _ := http.NewRequest(c.method, srv.URL()+"/x", nil)
 		tr := &http.Transport{DisableCompression: true}
 		defer tr.CloseIdleConnections()
 		resp, err := tr.RoundTrip(req)
@@ -398,6 +402,17 @@ func TestC07_RealServer(t *testing.T) {
 		}
 		c.record("real-server", want)
 	})
+}
+
+var (
+	frontOnce sync.Once
+	front     *sim.Front
+	frontErr  error
+)
+
+func frontServer() (*sim.Front, error) {
+	frontOnce.Do(func() { front, frontErr = sim.NewFront() })
+	return front, frontErr
 }
 
 // Regression inputs of the repaired defects D4 (implicit status) and D5 (no body).
